@@ -207,9 +207,22 @@ CHECKS = {
             "The generator computes the spans itself. Only lines are compared against the span. A fault the static checker finds inside a "
             "function definition needs no VIA entry. Errors that carry no position by construction (I/O, regex) are not among the kinds.",
             "DESIGN.md section 4 C17"),
+    "C19": ("exploration",
+            "bounded-exhaustive enumeration of helper calls in built files importing std/*.ucg against plain reference functions and laws",
+            "Every list of length 0..3 (thorough 0..4) over {1, \"a\", NULL, [1], {a=1}} for len/reverse (+ involution and length laws)/head/"
+            "tail/enumerate/ops, every (start, end) index pair for slice, pairs of lists of length 0..3 for zip, str_join with 3 separators and "
+            "with empty-string items; every tuple of 0..3 fields over 3 names x {1, \"s\", NULL} for fields/values/iter/strip_nulls/"
+            "has_fields; every string of length 0..3 (0..4) over {a, b, -, e-acute} for len/chars, every index for split_at, every (start, "
+            "end) for substr, 4 separators for split_on and the split/join law; digit-led strings for parse_int; maybe over {NULL, 1} x 6 "
+            "operations; schema.base_type_of/shaped/any/all over a 13 x 24 shape x value grid x partial. ~8 200 calls, each one let in a file "
+            "built with checker and VM.",
+            "The property text speaks of lists up to 12 and strings up to 20; the exhaustive bound is 3-4, which contains every boundary the "
+            "helpers branch on (empty, one element, first/last index, separator at start/end/adjacent, unequal lengths). slice with indices "
+            "beyond the list and parse_int without leading digit are not judged (undocumented).",
+            "DESIGN.md section 4 C19"),
 }
 
-CLAIMED = ["C01", "C02", "C03", "C04", "C05", "C06", "C07", "C08", "C09", "C10", "C11", "C12", "C13", "C14", "C15", "C16", "C17", "C18"]
+CLAIMED = ["C01", "C02", "C03", "C04", "C05", "C06", "C07", "C08", "C09", "C10", "C11", "C12", "C13", "C14", "C15", "C16", "C17", "C18", "C19"]
 
 NOT_YET = "check not built yet in this round; design in DESIGN.md section 4 (bounded-exhaustive enumeration applies)"
 
